@@ -455,6 +455,57 @@ theorem good_step (c : Cfg) (w : World) (ev : Event) : Good w (step c w ev) := b
           · exact Good.refl _
         · exact Good.refl _
 
+
+/-! ## the parent task of a reporting child -/
+
+theorem dispatch_tasks_prefix (w : World) (wf : Nat) (names : List String) :
+    ∃ l, (dispatch w wf names).tasks = w.tasks ++ l := by
+  unfold dispatch
+  generalize names.reverse = ns
+  induction ns generalizing w with
+  | nil => exact ⟨[], by simp⟩
+  | cons n ns ih =>
+    simp only [List.foldl_cons]
+    obtain ⟨l, hl⟩ := ih (dispatchOne w wf n)
+    have h1 : ∃ l1, (dispatchOne w wf n).tasks = w.tasks ++ l1 := by
+      unfold dispatchOne
+      split
+      · split
+        · exact ⟨[], by simp⟩
+        · exact ⟨[newTask wf n], rfl⟩
+      · exact ⟨[], by simp⟩
+    obtain ⟨l1, hl1⟩ := h1
+    exact ⟨l1 ++ l, by rw [hl, hl1, List.append_assoc]⟩
+
+theorem dispatch_get (w : World) (wf : Nat) (names : List String) (t : Nat) (tk : Task)
+    (h : w.tasks[t]? = some tk) : (dispatch w wf names).tasks[t]? = some tk := by
+  obtain ⟨l, hl⟩ := dispatch_tasks_prefix w wf names
+  have hlt : t < w.tasks.length := by
+    rcases Nat.lt_or_ge t w.tasks.length with h' | h'
+    · exact h'
+    · rw [List.getElem?_eq_none h'] at h; simp at h
+  rw [hl, List.getElem?_append_left hlt]; exact h
+
+/-- `Task.complete(s)` on a task that is not completed writes `s` (and runs the completion logic once) -/
+theorem completeTask_sets_state (c : Cfg) (w : World) (t : Nat) (s : St) (tk : Task) (e : Exec)
+    (htk : w.tasks[t]? = some tk) (hnc : isCompleted tk.state = false) (he : w.execs[tk.wf]? = some e) :
+    ∃ tk', (completeTask c w t s).tasks[t]? = some tk' ∧ tk'.state = s ∧ tk'.ran = tk.ran + 1 ∧
+      tk'.wf = tk.wf ∧ tk'.name = tk.name := by
+  have hlt : t < w.tasks.length := by
+    rcases Nat.lt_or_ge t w.tasks.length with h' | h'
+    · exact h'
+    · rw [List.getElem?_eq_none h'] at htk; simp at htk
+  unfold completeTask
+  rw [htk]
+  simp only [hnc]
+  rw [he]
+  simp only [Bool.false_eq_true, if_false]
+  cases hp : isPaused e.state
+  · simp only [Bool.false_eq_true, if_false]
+    exact ⟨_, dispatch_get _ _ _ t _ (List.getElem?_set_self hlt), rfl, rfl, rfl, rfl⟩
+  · simp only [if_true]
+    exact ⟨_, List.getElem?_set_self hlt, rfl, rfl, rfl, rfl⟩
+
 theorem good_run (c : Cfg) (w : World) (evs : List Event) : Good w (evs.foldl (step c) w) :=
   good_foldl (step c) (good_step c) evs w
 
